@@ -31,6 +31,8 @@ RULE = (
     "twice from the same source - decorators defined as the library's or as identity, base DBC or abc.ABC: member metadata and "
     "operation logs must be equal. "
     "Non-trivial = every compared call / class program; distinct = (kind, signature, stack, shape) or class-program tag."
+    ' Class twins added: instance-only descriptor as class attribute, __new__ reached through an instance, invarian'
+    't mix-in in front of a built-in base (hash / == / dict lookup / str / ordering as the built-in).'
 )
 ASSUMPTIONS = ["all contracts in this workload hold; construction paths that bypass the constructor are a silent zone"]
 
